@@ -390,7 +390,7 @@ func rangeKeyOf(idx ssa.Value, base ssa.Value) bool {
 
 func init() {
 	register(&Rule{ID: "R6", Name: "IDX-SPACE", Floor: 150,
-		Text: "logical row numbers are int, physical positions are uint32 values read from an index.Int: (P) every element access on column storage ({i,f,b,e}column data, scolumn pointers, and slice parameters that receive them) is indexed by a position (element of an index.Int, a position parameter, tableEntry.firstPos, a phi of those) or by the key of a range over that same slice; (L) every access to an index.Int/index.Bool is indexed by an int that is not a converted position; (6a) every argument bound to an inferred position parameter is a position; (6e) no (converted) position is bound to an inferred logical-row parameter; (6f) two positions are never compared for order (<, <=, >, >=), only for identity",
+		Text: "logical row numbers are int, physical positions are uint32 values read from an index.Int: (P) every element access on column storage ({i,f,b,e}column data, scolumn pointers, and slice parameters that receive them) is indexed by a position (element of an index.Int, a position parameter, tableEntry.firstPos, a phi of those) or by the key of a range over that same slice; (L) every access to an index.Int/index.Bool is indexed by an int that is not a converted position; (6a) every argument bound to an inferred position parameter is a position; (6e) no (converted) position is bound to an inferred logical-row parameter; (6f) two positions are never compared for order (<, <=, >, >=), only for identity; (6g) a function that works through a row index (an index.Int parameter, or a receiver carrying one: the views) never reads column storage in bulk (copy / append of the storage slice or a re-slice of it): bulk reads deliver storage order, whatever shortcut test of the index's end points precedes them",
 		Run:  runR6})
 	register(&Rule{ID: "R7", Name: "IDX-PROV", Floor: 10,
 		Text: "every uint32 written into an index.Int (element store, append, composite literal) or into tableEntry.firstPos is a position in the sense of R6: derived indexes contain only positions read from the parent index (frozen exceptions: index.NewAscending, QFrame.Append); the identity index built by index.NewAscending is stored only into the index field of a new frame whose columns slice is allocated in the same function (qframe.New, Grouper.Aggregate) - never into a grouper or a frame that reuses existing columns",
@@ -412,8 +412,32 @@ func runR6(c *Ctx) {
 	nP, nL, nScan, nEq := 0, 0, 0, 0
 	for _, fn := range p.Funcs {
 		fnm := fname(fn)
+		// (6g) does the function work through a row index? (an index.Int parameter, or a receiver that carries one)
+		hasRowIndex := false
+		for _, prm := range fn.Params {
+			if isIntIndexType(prm.Type()) {
+				hasRowIndex = true
+			}
+			if st, ok := deref(prm.Type()).Underlying().(*types.Struct); ok && prm == fn.Params[0] && fn.Signature.Recv() != nil {
+				for i := 0; i < st.NumFields(); i++ {
+					if isIntIndexType(st.Field(i).Type()) {
+						hasRowIndex = true
+					}
+				}
+			}
+		}
 		eachInstr(fn, func(in ssa.Instruction) {
 			switch t := in.(type) {
+			case *ssa.Call:
+				// bulk reads of column storage (copy / append of the storage slice or a re-slice of it) deliver the
+				// cells in physical order; a function that works through a row index must go through that index
+				if bn := builtinName(t); (bn == "copy" || bn == "append") && len(t.Call.Args) == 2 && hasRowIndex {
+					src := t.Call.Args[1]
+					if f.isStorage(stripSliceOps(src)) || f.isStorage(src) {
+						key := fnm + "|bulk read of " + accessPath(stripSliceOps(src))
+						c.bad(key, p.instrPos(t), "column storage is copied in bulk (physical order) in a function that works through a row index: for a frame whose index is a permutation or a subset with gaps (after Sort, Filter) the cells come out in storage order, not in frame order - whatever test of the index's first and last entries precedes it")
+					}
+				}
 			case *ssa.IndexAddr:
 				base := stripSliceOps(t.X)
 				switch {
